@@ -47,7 +47,35 @@ def _variants(prop):
         meta = json.load(open(mp))
         if prop in meta.get("properties", []):
             out.append(("twin", name, os.path.join(td, name, "patch.diff")))
+    # generated twins: whole-tree behaviour-preserving rewrites
+    out.append(("twin", "generated:ruff-format", "@ruff"))
+    out.append(("twin", "generated:ast-roundtrip", "@roundtrip"))
     return out
+
+
+def _rewrite(d, how):
+    if how == "@ruff":
+        exe = os.path.join(os.path.dirname(sys.executable), "ruff")
+        if not os.path.isfile(exe):
+            return False
+        r = subprocess.run([exe, "format", "-q", "--line-length", "100", "seqm", "scripts"], cwd=d, capture_output=True, text=True)
+        return r.returncode == 0
+    if how == "@roundtrip":
+        import ast
+        import warnings
+        for dp, dn, fn in os.walk(d):
+            for f in fn:
+                if f.endswith(".py"):
+                    p = os.path.join(dp, f)
+                    try:
+                        with warnings.catch_warnings():
+                            warnings.simplefilter("ignore")
+                            src = ast.unparse(ast.parse(open(p).read()))
+                    except SyntaxError:
+                        continue
+                    open(p, "w").write(src + "\n")
+        return True
+    return False
 
 
 def _run_variant(prop, repo_root, kind, name, patch):
@@ -57,9 +85,13 @@ def _run_variant(prop, repo_root, kind, name, patch):
             src = os.path.join(repo_root, sub)
             if os.path.isdir(src):
                 shutil.copytree(src, os.path.join(d, sub), ignore=shutil.ignore_patterns("__pycache__", "*.pyc"))
-        r = subprocess.run(["patch", "-p1", "-s", "-f", "--no-backup-if-mismatch", "-d", d, "-i", patch], capture_output=True, text=True)
-        if r.returncode:
-            return kind, name, "skipped", "patch does not apply to the current tree"
+        if patch.startswith("@"):
+            if not _rewrite(d, patch):
+                return kind, name, "skipped", "rewriter not available"
+        else:
+            r = subprocess.run(["patch", "-p1", "-s", "-f", "--no-backup-if-mismatch", "-d", d, "-i", patch], capture_output=True, text=True)
+            if r.returncode:
+                return kind, name, "skipped", "patch does not apply to the current tree"
         env = dict(os.environ, PYTHONDONTWRITEBYTECODE="1", VERIF_EVIDENCE_DIR=os.path.join(d, "_evidence"), VERIF_TIER="quick")
         p = subprocess.run([sys.executable, "-m", "sa.cli", prop, "--tier", "quick", "--repo", d], cwd=HERE, env=env, capture_output=True, text=True)
         viol = [l for l in p.stdout.splitlines() if l.startswith("  " + prop)]
